@@ -868,6 +868,8 @@ class Emit:
             return f"({self.ex(e[2])} {self.BINOP[op]} {self.ex(e[3])})"
         if k == "try":
             inner = e[1]
+            while inner[0] == "mcall" and ((inner[2] in ERASED_METHODS and not inner[3]) or inner[2] in ("map_err", "with_context", "context")):
+                inner = inner[1]
             if inner[0] in ("call", "mcall"):
                 raw, eff, res = self._call(inner) if inner[0] == "call" else self._mcall(inner)
                 if eff and res: return f"(← {raw})"
@@ -1034,7 +1036,8 @@ class Emit:
             p = self.pat(args[1][1][0])
             return (f"(match {self.ex(recv)} with | some {p} => {self.ex(args[1][2])} | none => {self.ex(args[0])})", False, False)
         if m == "unwrap" and not args: return (f"(Rs.unwrap {self.atom(recv)})", False, False)
-        return ("(" + " ".join([f"Rs.{lname(m)}", self.atom(recv)] + [self.atom(x) for x in args]) + ")", False, False)
+        fn_name = self.unit.get("method_map", {}).get(m, f"Rs.{lname(m)}")      # per-unit meaning of a std method name
+        return ("(" + " ".join([fn_name, self.atom(recv)] + [self.atom(x) for x in args]) + ")", False, False)
     def macro(self, e):
         name = "::".join(e[1])
         if name == "matches":
